@@ -31,10 +31,9 @@ PAYLOAD_IN = {
     'PayloadFrame[!complete,!next]': [],
     'PayloadFrame[!complete,next]': [[N]],
     'PayloadFrame[complete,!next]': [[C]],
-    # one signal that carries the flag: the library's own subscribers (the collector's top-up and cut-off, the Rx
-    # adapters' replenishment) decide from is_complete whether to ask for more - on_next without it, followed by
-    # on_complete, lets them emit REQUEST_N / CANCEL on a stream whose COMPLETE has already been received (seed C08m)
-    'PayloadFrame[complete,next]': [[NC]],
+    # either form: since F26 / F27 a handler that has received the peer's COMPLETE ignores request() / cancel(), so a
+    # subscriber that is told on_next() and on_complete() separately cannot make it write any more
+    'PayloadFrame[complete,next]': [[NC], [N, C]],
     'ErrorFrame': [[E]],
 }
 SUBSCRIBER_OUT = {
@@ -88,10 +87,19 @@ def _peer_done_flag(m, h, pre):
     PAYLOAD that carries COMPLETE and no element."""
     for en in m.entries(h):
         if en.kind == 'frame' and en.name.split('/')[-1] == 'PayloadFrame[complete,!next]':
-            posts = [m.post_state(p) for p in m.run(en, pre) if p.outcome == 'return']
+            paths = [p for p in m.run(en, pre) if p.outcome == 'return']
+            posts = [m.post_state(p) for p in paths]
             if not posts:
                 return None
             names = [k for k, v in pre.items() if v is False and all(q.get(k) is True for q in posts)]
+            if len(names) > 1:
+                # several flags change: the one the handler notes first is the one it notes before telling its subscriber
+                first = None
+                for e in paths[0].events:
+                    if e.kind == 'store' and e.data['target'][0] == 'attr' and e.data['target'][2] in names:
+                        first = e.data['target'][2]
+                        break
+                return first
             return names[0] if len(names) == 1 else None
     return None
 
